@@ -531,7 +531,9 @@ class Interp:
         # --- free functions / constructors
         if fname == 'enums.convert_attribute_tag_to_name':
             self.ev_event('tag_to_name', e, arg=U(e.args[0]) if e.args else '')
-            return Name(ai.byenum_names)
+            known = ai.byenum_names & ai.allnames
+            # decodable attributes without a rule-table entry behave like unknown names in the policy lookups
+            return Name(known | ({UNK} if ai.byenum_names - ai.allnames else set()), client=True)
         if fname in ('copy.deepcopy', 'copy.copy') and argv:
             v = argv[0]
             if isinstance(v, Obj):
@@ -989,6 +991,15 @@ class Interp:
                                 return None
                             env[lv.b] = o.w(states=ss)
                     return st
+            # name in/not in policy.get_all_attribute_names(): membership in the rule table
+            if isinstance(op, (ast.In, ast.NotIn)) and isinstance(lv, Name) and isinstance(l, ast.Name) and isinstance(rv, V) and rv.tag == 'list' \
+                    and isinstance(rv.a, Name) and rv.a.names == ai.allnames:
+                member = isinstance(op, ast.In) == pol
+                names = frozenset(x for x in lv.names if (x != UNK) == member) if member else frozenset(x for x in lv.names if x == UNK)
+                if not names:
+                    return None
+                env[l.id] = Name(names, lv.client)
+                return st
             # MASK in/not in obj.cryptographic_usage_masks
             if isinstance(op, (ast.In, ast.NotIn)) and isinstance(rv, V) and rv.tag == 'proj' and rv.a == 'masks' and isinstance(env.get(rv.b), Obj):
                 c = None
